@@ -550,10 +550,10 @@ def run_cases(run: lib.Run, audit: dict, scale: int = 1):
                                           "spec": "adding a rule whose action/target does not match changed the decision"})
 
 
-WHOLE_OBLIGATION = ("C03_whole: Generated.Src.compile_decide (the current source text of compile(policy) + the closure decide(env) it returns) vs the "
-                    "model's compiledDecide with compilerDefault := the literal of the source — set delegation and the prologue (default algorithm, "
-                    ".lower() raising) for every dict policy, three kernel-evaluated witnesses for the sort / the matched flags / the selection order; see the "
-                    "header of Run/C03_whole.lean for what is proved of the index / bucket part")
+WHOLE_OBLIGATION = ("C03_whole: Generated.Src.compile_decide (the current source text of compile(policy) + the closure decide(env) it returns: set "
+                    "delegation, default algorithm = the literal of the source, action index, seen set, sort, buckets, selection, evaluate) = the model's "
+                    "compiledDecide with compilerDefault := that literal (same dict or same exception), for every dict policy whose rules are a list of "
+                    "dicts and every dict env, lax and strict; set documents delegate to Src.decide")
 
 
 def check(run: lib.Run, audit: dict) -> int:
